@@ -2253,6 +2253,8 @@ coap_block_new_lg_crcv(coap_session_t *session, coap_pdu_t *pdu,
   coap_ticks(&lg_crcv->last_used);
   /* Set up skeletal PDU to use as a basis for all the subsequent blocks */
   memcpy(&lg_crcv->pdu, pdu, sizeof(lg_crcv->pdu));
+  /* Only a lg_xmit that knows about this lg_crcv resets the reference when it goes */
+  lg_crcv->pdu.lg_xmit = lg_xmit;
   /* Make sure that there is space for increased token + option change */
   lg_crcv->pdu.max_size = token_options + data_len + 9;
   lg_crcv->pdu.used_size = token_options + data_len;
